@@ -297,7 +297,11 @@ func (r *Run) Finish() int {
 		evdir = d // trial runs against seeded changes must not overwrite the committed evidence
 	}
 	os.MkdirAll(evdir, 0o755)
-	os.MkdirAll(filepath.Join(verifRoot, "replays"), 0o755)
+	repdir := filepath.Join(verifRoot, "replays")
+	if d := os.Getenv("VERIF_REPLAY_DIR"); d != "" {
+		repdir = d // trial runs against seeded changes keep their replay files apart
+	}
+	os.MkdirAll(repdir, 0o755)
 
 	sigs := make([]string, 0, len(r.viol))
 	for s := range r.viol {
@@ -314,7 +318,7 @@ func (r *Run) Finish() int {
 	for n, s := range sigs {
 		v := r.viol[s]
 		name := fmt.Sprintf("%s-%s.json", r.ID, shortHash(s))
-		p := filepath.Join(verifRoot, "replays", name)
+		p := filepath.Join(repdir, name)
 		b, _ := json.MarshalIndent(v, "", " ")
 		_ = os.WriteFile(p, append(b, '\n'), 0o644)
 		if n < 20 {
@@ -355,7 +359,7 @@ func (r *Run) Finish() int {
 	for k, v := range r.extra {
 		cov[k] = v
 	}
-	if cov["samples"] == nil {
+	if r.samples == nil {
 		cov["samples"] = []any{}
 	}
 	ev := map[string]any{
